@@ -14,6 +14,9 @@ def main():
     n = "8"
     if "-n" in sys.argv:
         n = sys.argv[sys.argv.index("-n") + 1]
+    repo = "/repo"
+    if "--repo" in sys.argv:
+        repo = sys.argv[sys.argv.index("--repo") + 1]
     base = json.load(open("/root/.vp/BASELINE.json"))
     env = {k: v for k, v in os.environ.items() if k != "PYMABLOCK_VERIF"}
     with tempfile.TemporaryDirectory() as td:
@@ -22,7 +25,7 @@ def main():
                "--continue-on-collection-errors", "-o", "addopts=", f"--junitxml={xml}"]
         if n != "0":
             cmd += ["-n", n]
-        subprocess.run(cmd, cwd="/repo", env=env, capture_output=True, text=True)
+        subprocess.run(cmd, cwd=repo, env=env, capture_output=True, text=True)
         passed = set()
         for tc in ET.parse(xml).getroot().iter("testcase"):
             if not any(ch.tag in ("failure", "error", "skipped") for ch in tc):
